@@ -50,10 +50,10 @@ def expr_batch(terms):
         for t in terms:
             try:
                 e = G.build(t, sigs)
+                o = Signal(e.shape(), name=f"o{len(built)}")
+                m.d.comb += o.eq(e)
             except Exception:
                 continue          # C01 reports construction problems
-            o = Signal(e.shape(), name=f"o{len(built)}")
-            m.d.comb += o.eq(e)
             built.append((t, o))
     if not built:
         return out
